@@ -101,6 +101,9 @@ def _calls_in_order(st):
 def run(w: World, rep: Report):
     # dependency obligations first: they stand on their own even if the decompiler has a shape the rules below cannot read
     from .report import depend
+    depend(rep, w, 'rules_c11', ('C11.R2b',), 'C12.TD11b',
+           'every handle / length the decompiler can print for a block is accepted by the block parsers in the width the VM '
+           'reads (C11.R2b re-evaluated)', floor=6)
     depend(rep, w, 'rules_c11', ('C11.R7',), 'C12.TD11',
            'what the decompiler prints for a push with an explicit size (`OP_PUSH1 d<n> x<hex>`, `d0 x` for the empty '
            'payload) is read back as size and value: the compiler\'s one- vs two-symbol choice keeps no value spelling '
